@@ -204,9 +204,10 @@ func c08liftFromDialler(w *c08world, v *c08node) func([]byte) ([]byte, error) {
 // c08oracle is the property's own reading of a description: did the peer prove,
 // freshly for this handshake, that it holds the key it claims. It returns the
 // claimed key ("" when none is proven), why not, and whether the proof was made
-// by the peer itself. (Formalities of the certificate - validity period, who
-// signed it, how many there are - are not part of the property: refusing them
-// is allowed, accepting them is no violation as long as the proof is there.)
+// by the peer itself. (Other formalities of the certificate - who signed it, how
+// many there are - are not part of the property: refusing them is allowed,
+// accepting them is no violation as long as the proof is there. The validity
+// period is checked separately: the property names expired / not yet valid.)
 func c08oracle(d c08desc) (claimed string, why string, own bool) {
 	if d.ncerts == 0 || d.der == "bad" {
 		return "", "no certificate was presented", false
@@ -379,6 +380,10 @@ func c08handshake(d c08desc, cs *h.Case) (string, string) {
 	switch {
 	case hs == "ok" && claimed == "":
 		cs.Fail("unproven-key-accepted:"+tag+":"+c08row(d), fmt.Sprintf("the honest node completed the handshake although %s (%s)", why, d.line()))
+	case hs == "ok" && d.time != "ok":
+		// "expired / not yet valid" are deviations the property names: a certificate is the
+		// peer's credential for this handshake only inside its validity period
+		cs.Fail("certificate-outside-validity-accepted:"+tag+":"+d.time, fmt.Sprintf("the honest node completed the handshake with a certificate that is %s (%s)", map[string]string{"expired": "expired", "future": "not yet valid"}[d.time], d.line()))
 	case hs == "ok" && d.role == "dial" && claimed != d.them:
 		cs.Fail("dialler-reached-other-key:"+tag, fmt.Sprintf("dialled %s, accepted a peer proving %s (%s)", d.them, claimed, d.line()))
 	case disp != "-" && disp != "lost" && disp != claimed:
